@@ -106,12 +106,21 @@ def run_case(spec):
                 try:
                     cust = ([{'press': custom_press}, {'press2': lambda rel: rel['press'] * 2.0}]
                             if 'press' not in data else []) + [{'myvar': custom}]
-                    tab = atime.over_time(data, fd, vars=cust + probes + want,
+                    if 'rho0' not in data and 'rho' not in data:
+                        # ... and one that built-ins are computed from
+                        cust = [{'rho0': lambda rel: np.full(n, 0.21)}] + cust
+                    dep = ['rho'] if any('rho0' in c for c in cust) else []
+                    tab = atime.over_time(data, fd, vars=cust + probes + want + dep,
                                           estimates=['max'], verbose=False, **{
                                               k: v for k, v in kw.items() if k != 'verbose'})
                     # quantities that are pure re-packagings of the frozen inputs
                     # must come back as given (no fall-back to the defaults)
-                    if len(cust) == 3 and not all(np.array_equal(np.asarray(tab['press'][row]),
+                    if dep and not all(np.allclose(np.asarray(tab['rho'][row]), 0.21, rtol=1e-13, atol=0)
+                                       for row in range(nsteps)):
+                        violations.append(("I1 custom variable of over_time was lost during the step"
+                                           " (a built-in computed from it fell back to the default)",
+                                           {"var": "rho0 -> rho"}))
+                    if any('press' in c for c in cust) and not all(np.array_equal(np.asarray(tab['press'][row]),
                                                                  np.full(n, 0.37)) for row in range(nsteps)):
                         violations.append(("I1 custom variable of over_time was lost during the step"
                                            " (fell back to the built-in default)", {"var": "press"}))
@@ -141,7 +150,7 @@ def run_case(spec):
         else:
             if spec.get('extra_frozen') and ex is not None and spec['style'] != 'fluid0':
                 # derived tensors supplied by the user as inputs are frozen too
-                for k in ('st_Riemann_down4', 's_Riemann_down3', 'gdown4'):
+                for k in ('st_Riemann_down4', 's_Riemann_down3', 'gdown4', 's_Gamma_udd3', 's_RicciS'):
                     inputs[k] = np.array(ex[k], copy=True)
             with common.Quiet():
                 rel = A.AurelCore(fd, **kw)
@@ -216,7 +225,14 @@ def run_case(spec):
                 ops = ops + [('key', 'my_field')]
                 for _ in range(3):
                     ops.insert(int(rng.integers(len(ops))), ('key', 'my_field'))
-            for op in ops:
+            for oi, op in enumerate(ops):
+                if oi == len(ops) // 3:
+                    # another object on the same grid comes to life in the middle of
+                    # the session (what over_time does for every step): this one
+                    # keeps its frozen inputs
+                    with common.Quiet():
+                        other = A.AurelCore(fd, **kw)
+                        other['gammadet']
                 status, val = H.do_op(rel, op)
                 if status == 'raise' and isinstance(val, (RecursionError, KeyError, UnboundLocalError)):
                     violations.append((f"request raises {type(val).__name__}", {"op": op[1],
